@@ -115,8 +115,8 @@ Lemma multi_mode_dot_e_equation (T : tensor F) (Ms : list (tensor F)) modes skip
   exists st ops, mmd_e_loop Op (sort_by_mode (zip3 Ms modes)) skip tr (ndim T) (mkS [] [] (seq 0 (ndim T)) (ndim T + 1) 0) = Ok st /\
              R = einsum Op (seq 0 (ndim T) :: s_ins st) (s_out st) ops.
 Proof.
-  unfold multi_mode_dot_e. cbv zeta. destruct (mmd_e_fits _ _ _ _); [|discriminate]. destruct (mmd_e_loop Op _ skip tr (ndim T) _) as [st|]; [|discriminate]. cbn [rbind].
-  unfold einsum_np. destruct (einsum_bcast_ok _ _); [|discriminate]. intros H. injection H as <-. exists st. eexists. auto.
+  unfold multi_mode_dot_e. cbv zeta. destruct (mmd_e_loop Op _ skip tr (ndim T) _) as [st|]; [|discriminate]. cbn [rbind].
+  destruct (einsum_sizes_ok _ _); [|discriminate]. intros H. injection H as <-. exists st. eexists. auto.
 Qed.
 End P.
 
